@@ -55,22 +55,42 @@ static hwloc_bitmap_t parse_csv(const char *s) {
   }
   return b;
 }
+/* every object of the topology, level by level (normal levels, then the special ones) */
+static hwloc_obj_t next_obj(hwloc_obj_t prev) {
+  static const int special[] = { HWLOC_TYPE_DEPTH_NUMANODE, HWLOC_TYPE_DEPTH_MEMCACHE, HWLOC_TYPE_DEPTH_BRIDGE,
+                                 HWLOC_TYPE_DEPTH_PCI_DEVICE, HWLOC_TYPE_DEPTH_OS_DEVICE, HWLOC_TYPE_DEPTH_MISC };
+  int nd = hwloc_topology_get_depth(topo), k, ns = (int)(sizeof special / sizeof *special), cur;
+  if (prev && prev->next_cousin) return prev->next_cousin;
+  if (!prev) cur = -1;
+  else if (prev->depth >= 0) cur = prev->depth;
+  else { for (k = 0; k < ns && special[k] != prev->depth; k++); cur = nd + k; }
+  for (cur++; cur < nd + ns; cur++) {
+    hwloc_obj_t o = hwloc_get_obj_by_depth(topo, cur < nd ? cur : special[cur - nd], 0);
+    if (o) return o;
+  }
+  return NULL;
+}
 static int is_live(hwloc_obj_t o) {
   hwloc_obj_t p = NULL;
-  while ((p = hwloc_get_next_obj_by_type(topo, o->type, p)) != NULL) if (p == o) return 1;
+  while ((p = next_obj(p)) != NULL) if (p == o) return 1;
   return 0;
 }
-/* identifier of an object: type letter + OS index */
-static void out_objid(hwloc_obj_t o) {
-  char c;
-  if (!o) { out("\"!null\""); return; }
-  if (!is_live(o)) { out("\"!stale\""); return; }
+/* identifier of an object: N/P/K/C + OS index, M0 for the root, O<type>_<gp_index> for anything else */
+static void fmt_objid(char *buf, size_t n, hwloc_obj_t o) {
+  char c = 0;
   switch (o->type) {
   case HWLOC_OBJ_NUMANODE: c = 'N'; break; case HWLOC_OBJ_PU: c = 'P'; break; case HWLOC_OBJ_PACKAGE: c = 'K'; break;
-  case HWLOC_OBJ_CORE: c = 'C'; break; case HWLOC_OBJ_MACHINE: out("\"M0\""); return;
-  default: out("\"?%d:%llu\"", (int)o->type, (unsigned long long)o->gp_index); return;
+  case HWLOC_OBJ_CORE: c = 'C'; break; case HWLOC_OBJ_MACHINE: snprintf(buf, n, "M0"); return;
+  default: break;
   }
-  out("\"%c%u\"", c, o->os_index);
+  if (c && o->os_index != HWLOC_UNKNOWN_INDEX) snprintf(buf, n, "%c%u", c, o->os_index);
+  else snprintf(buf, n, "O%d_%llu", (int)o->type, (unsigned long long)o->gp_index);
+}
+static void out_objid(hwloc_obj_t o) {
+  char b[48];
+  if (!o) { out("\"!null\""); return; }
+  if (!is_live(o)) { out("\"!stale\""); return; }
+  fmt_objid(b, sizeof b, o); out("\"%s\"", b);
 }
 static hwloc_obj_t find_obj(const char *id) {
   unsigned os; hwloc_obj_type_t t; hwloc_obj_t p = NULL;
@@ -82,6 +102,11 @@ static hwloc_obj_t find_obj(const char *id) {
   case 'M': return hwloc_get_root_obj(topo);
   case 'K': t = HWLOC_OBJ_PACKAGE; break;
   case 'C': t = HWLOC_OBJ_CORE; break;
+  case 'O': {
+    char *end; long ty = strtol(id + 1, &end, 10); unsigned long long gp = *end == '_' ? strtoull(end + 1, NULL, 10) : 0;
+    while ((p = next_obj(p)) != NULL) if ((long)p->type == ty && p->gp_index == gp) return p;
+    return NULL;
+  }
   default: return NULL;
   }
   while ((p = hwloc_get_next_obj_by_type(topo, t, p)) != NULL) if (p->os_index == os) return p;
@@ -134,7 +159,7 @@ static void out_topo(void) {
   for (i = 0; i < ndecl_objs; i++) {
     hwloc_obj_t o = find_obj(decl_objs[i]);
     out("%s[\"%s\",%d,", i ? "," : "", decl_objs[i], o ? 1 : 0);
-    if (o) out_set(o->cpuset); else out("[]");
+    if (o) { hwloc_obj_t c = o; while (c && !c->cpuset) c = c->parent; out_set(c ? c->cpuset : NULL); } else out("[]");
     out("]");
   }
   out("]}");
@@ -365,6 +390,34 @@ static int load_topology(void) {
   return 0;
 }
 
+/* bundled inputs: declare the non-NUMA targets and the object initiators found in the store */
+static void declare_obj(hwloc_obj_t o) {
+  char b[48]; int i;
+  if (!o || o->type == HWLOC_OBJ_NUMANODE || ndecl_objs >= MAXC) return;
+  fmt_objid(b, sizeof b, o);
+  for (i = 0; i < ndecl_objs; i++) if (!strcmp(decl_objs[i], b)) return;
+  decl_objs[ndecl_objs++] = strdup(b);
+}
+static void auto_declare(void) {
+  unsigned id; const char *name;
+  for (id = 0; hwloc_memattr_get_name(topo, id, &name) == 0 && id < 64; id++) {
+    unsigned nr = 0, j; hwloc_obj_t *tg;
+    if (hwloc_memattr_get_targets(topo, id, NULL, 0, &nr, NULL, NULL) < 0 || !nr) continue;
+    tg = calloc(nr, sizeof *tg);
+    if (hwloc_memattr_get_targets(topo, id, NULL, 0, &nr, tg, NULL) == 0)
+      for (j = 0; j < nr; j++) {
+        unsigned ni = 0, k; struct hwloc_location *ls;
+        declare_obj(tg[j]);
+        if (hwloc_memattr_get_initiators(topo, id, tg[j], 0, &ni, NULL, NULL) < 0 || !ni) continue;
+        ls = calloc(ni, sizeof *ls);
+        if (hwloc_memattr_get_initiators(topo, id, tg[j], 0, &ni, ls, NULL) == 0)
+          for (k = 0; k < ni; k++) if (ls[k].type == HWLOC_LOCATION_TYPE_OBJECT) declare_obj(ls[k].location.object);
+        free(ls);
+      }
+    free(tg);
+  }
+}
+
 static void clear_all(void) {
   int i;
   if (topo) { hwloc_topology_destroy(topo); topo = NULL; }
@@ -392,6 +445,7 @@ static void do_begin(char *p, int beh) {
   }
   npre = 0;
   loaded = ok;
+  if (ok && automode) auto_declare();
   out("{\"e\":\"Reset\",\"beh\":%d,\"ok\":%d,\"adopt\":%d,\"cs\":[", beh, ok, opt && !strcmp(opt, "adopt") ? 1 : 0);
   for (i = 0; i < ndecl_cs; i++) { out("%s", i ? "," : ""); out_set(decl_cs[i]); }
   out("]");
